@@ -105,6 +105,11 @@ def clashingIds (fs : FS) (nodes : List Nat) : List Name :=
     | some id => if nodes.any (fun m => m != n && definesId fs m == some id) then some id else none
     | none => none)).eraseDups
 
+/-- no element occurs twice -/
+def nodupB : List Nat → Bool
+  | [] => true
+  | x :: r => !r.contains x && nodupB r
+
 def sameSet {α} [BEq α] (a b : List α) : Bool := a.all b.contains && b.all a.contains
 
 /-- Verdict on a successful load reported by the implementation:
@@ -123,7 +128,7 @@ def judge (fs : FS) (cfg : Cfg) (locs : List Dir)
     (loaded : List (Nat × Name)) (keys dupWarn : List Name) : Verdict :=
   let nodes := loaded.map (·.1)
   let exp := expectedNodes fs cfg locs
-  { once := nodes.eraseDups.length == nodes.length
+  { once := nodupB nodes
     onlyExpected := nodes.all exp.contains
     allExpected := exp.all nodes.contains
     idsRight := loaded.all (fun (n, id) => definesId fs n == some id)
